@@ -183,8 +183,8 @@ CHECKS.update({
  "C41": (EX, OBL_TECH + "; ten anchored zero ordinates as spec constants; ordering/counting relations beyond",
          "zetazero(n<=10) inside 6-decimal enclosures with real part exactly 1/2; conjugates; increasing ordinates; nzeros consistency; siegelz sign change; gram points; backlunds.",
          OBL_NOTE + " Beyond index 10 a consistent shift of zetazero and nzeros is invisible.", "DESIGN.md §4 C41"),
- "C42": (EX, OBL_TECH + " (exact polynomial inverses; closed forms via the library at higher precision otherwise)",
-         "1/p^k <-> t^(k-1)/(k-1)! for the three methods within 10^(3-dps/2); exp/sin/cos inverses for talbot and dehoog.", OBL_NOTE, "DESIGN.md §4 C42"),
+ "C42": (EX, OBL_TECH + " (exact polynomial inverses; exp/sin/cos inverses against the spec's own series enclosures (RealFun) at dyadic arguments, against the library at higher precision otherwise)",
+         "1/p^k <-> t^(k-1)/(k-1)! for the three methods within 10^(3-dps/2); exp/sin/cos inverses for talbot and dehoog, anchored to RealFun when a*t is dyadic; oscillatory inverses only for a*t <= 0.3 dps (documented limitation of the contour methods).", OBL_NOTE, "DESIGN.md §4 C42"),
  "C43": (EX, OBL_TECH + " (fp double vs mp 53-bit value as exact dyadics)",
          "Result types, principal complex values outside real domains, agreement to 2^-48 relative or 2^-300 absolute for every elementary function over all double magnitude classes.",
          OBL_NOTE + " Agreement is relative to mp, as the property is stated.", "DESIGN.md §4 C43"),
